@@ -106,6 +106,8 @@ def run_property(prop, tier, seed, replay=None, only_case=None):
         translate_classes.generate()
     # ---- 2. build -------------------------------------------------------------------------------
     lean_modules = list(getattr(mod, "LEAN_MODULES", [f"GT.Props.{prop}"]))
+    if os.environ.get("GT_DEBUG_NO_PROOFS"):   # development only; never used by a registered command
+        lean_modules = []
     ok, log, bt = lake_build(lean_modules + ["gtdriver"])
     build_broken = []
     if not ok:
